@@ -2,8 +2,10 @@
 # seed_matrix.sh <check seeds...>  -- every seeded change against the quick check of its own property, for several generator seeds
 # (applies each change to /repo and reverts it; do not run anything else that builds from /repo meanwhile)
 cd /verif
+echo $$ > /verif/.cache/matrix.pid
 for d in seeded/C*; do
   s=$(basename $d); p=${s%-*}
+  [ -n "$MATRIX_FROM" ] && [[ "$s" < "$MATRIX_FROM" ]] && continue
   (cd /repo && git apply /verif/$d/patch.diff) || { echo "$s patch does not apply"; continue; }
   line="$s"
   for sd in "$@"; do
